@@ -36,6 +36,13 @@ def poly_str(poly):
     s = " ".join(out)
     return s[2:] if s.startswith("+ ") else s
 
+def wq(w):
+    """weight of an edge; None = the edge dict has no 'weight' entry, which means 1.0"""
+    return Fr(1) if w is None else Fr(w)
+
+def edict(w):
+    return {} if w is None else {"weight": float(Fr(w))}
+
 def build(case):
     """case -> CircuitTemplate (ONE OperatorTemplate object per operator name; per-node values as overrides)"""
     from pyrates import OperatorTemplate, NodeTemplate, CircuitTemplate
@@ -61,10 +68,10 @@ def build(case):
                 nodes[nname] = NodeTemplate(name=nname, path=None,
                                             operators={ops[on]: {k: float(Fr(v)) for k, v in ov.items()} for on, ov in nops})
             return CircuitTemplate(name=name, path=None, nodes=nodes,
-                                   edges=[(s, t, None, {"weight": float(Fr(w))}) for s, t, w in c["edges"]])
+                                   edges=[(s, t, None, edict(w)) for s, t, w in c["edges"]])
         subs = {sn: circ(sn, sc) for sn, sc in c["subs"]}
         return CircuitTemplate(name=name, path=None, circuits=subs,
-                               edges=[(s, t, None, {"weight": float(Fr(w))}) for s, t, w in c["edges"]])
+                               edges=[(s, t, None, edict(w)) for s, t, w in c["edges"]])
     return circ("net", case["tree"])
 
 def impl(case):
@@ -321,7 +328,8 @@ def gen_case(rng, mode="valid"):
                 continue
             edges.insert(rng.randrange(len(edges) + 1), rng.choice(cand))
         for s, t in edges:
-            add_edge(tree, "/".join(s), "/".join(t), q4(rng, nz=True) if rng.random() < 0.85 else "1", rng)
+            r_ = rng.random()
+            add_edge(tree, "/".join(s), "/".join(t), q4(rng, nz=True) if r_ < 0.75 else ("1" if r_ < 0.85 else None), rng)
         case = dict(ops=ops, tree=tree, points=[], mode=mode)
         if not py_wf(case):
             continue
@@ -375,7 +383,7 @@ def split_vid(s):
 def param_vars(case):
     """constants, and input variables to which nothing connects"""
     res = resolved(case)
-    edges = [(split_vid(s), split_vid(t), Fr(w)) for s, t, w in tree_edges(case["tree"])]
+    edges = [(split_vid(s), split_vid(t), wq(w)) for s, t, w in tree_edges(case["tree"])]
     out = []
     for path, l in res.items():
         for on, vs, eqs, o in l:
@@ -482,7 +490,7 @@ class Inexact(Exception):
 def py_eval(case, pt, d3=False):
     """Spec (d3=False) or the mechanism with the merge-by-source-node behaviour (d3=True); returns {state var: derivative}"""
     res = resolved(case)
-    edges = [(split_vid(s), split_vid(t), Fr(w)) for s, t, w in tree_edges(case["tree"])]
+    edges = [(split_vid(s), split_vid(t), wq(w)) for s, t, w in tree_edges(case["tree"])]
     st = {k: Fr(v) for k, v in pt["state"].items()}
     pa = {k: Fr(v) for k, v in pt["params"].items()}
     memo, busy = {}, set()
@@ -596,7 +604,7 @@ def c_circ(c, opref):
     nodes = clist([f"({cstr(nm)}, {clist([f'({opref[on]}, ' + clist([f'({cstr(k)}, {cq(v)})' for k, v in ov.items()]) + ')' for on, ov in nops])})"
                    for nm, nops in c["nodes"]])
     subs = clist([f"({cstr(sn)}, {c_circ(sc, opref)})" for sn, sc in c["subs"]])
-    edges = clist([f"E {c_vid(s)} {c_vid(t)} {cq(w)}" for s, t, w in c["edges"]])
+    edges = clist([f"E {c_vid(s)} {c_vid(t)} {cq(wq(w))}" for s, t, w in c["edges"]])
     return f"(Circ {nodes} {subs} {edges})"
 
 def c_assoc(d):
@@ -688,6 +696,12 @@ PROPOSED = {   # findings this check proposes for known_findings.json (used for 
                          text="an input variable with >= 2 sources (sum-substituted by _collect_ops) occurs with degree >= 3 in a right-hand "
                               "side: AttributeError ('Add' object has no attribute 'shape') at compile time (expression parser, loud)"),
 }
+
+def fixed_D3():
+    """the model switch of Edges.v (false: the code as it is; true: proposed_fix_C01_D3.diff applied)"""
+    import re
+    txt = open(os.path.join(COQ, "theories", "Edges.v")).read()
+    return re.search(r"Definition fixed_D3 : bool := (true|false)\.", txt).group(1) == "true"
 
 def failed_out(o):
     return (not isinstance(o, dict)) or "outs" not in o or any("err" in x for x in o["outs"])
@@ -808,6 +822,8 @@ def check(ctx):
         for i in cmp_[k]:
             guard_viol.setdefault(i, []).append(g)
     n_eval = sum(len(o["outs"]) for o in outs if isinstance(o, dict) and "outs" in o)
+    if fixed_D3():
+        ctx.note("model switch fixed_D3 = true: Impl merges by (source node, source variable); the d3 stream is an ordinary valid stream")
     ctx.note(f"E1: {len(cases)} networks, {n_eval} vector-field evaluations; real-vs-Impl mismatches {len(badI)}, real-vs-Spec mismatches "
              f"{len(badS)}, raised/crashed {len(crashed)}; outside guards: d3 {len(cmp_['g_d3'])}, names {len(cmp_['g_names'])}, labels {len(cmp_['g_labels'])}, "
              f"parser {len(cmp_['g_parser'])}")
@@ -846,6 +862,7 @@ def check(ctx):
                 depth={d: sum(1 for c in cases if max(p.count("/") for p, _ in tree_nodes(c["tree"])) == d) for d in range(3)},
                 edges=sum(len(tree_edges(c["tree"])) for c in cases),
                 with_parallel_edges=sum(1 for c in cases if len({(s_, t_) for s_, t_, _ in tree_edges(c["tree"])}) < len(tree_edges(c["tree"]))),
+                weightless_edges=sum(1 for c in cases for _, _, w in tree_edges(c["tree"]) if w is None),
                 with_self_loop=sum(1 for c in cases if any(split_vid(s_)[0] == split_vid(t_)[0] for s_, t_, _ in tree_edges(c["tree"]))),
                 with_unconnected_input=sum(1 for c in cases if any(kind_of(c, split_vid(v)) == "input" for v in param_vars(c))),
                 state_dim_max=max((o["ny"] for o in outs if isinstance(o, dict) and "ny" in o), default=0))
@@ -858,7 +875,7 @@ def check(ctx):
                         "states x 2 parameter assignments; a network is non-trivial when it has >= 2 nodes, >= 1 edge and some input variable "
                         "with fan-in >= 2 or a same-node producer; distinct = distinct canonical JSON of (operators, circuit tree)",
                    samples=[sample],
-                   extra=dict(input_distribution=hist, impl_vs_model_mismatches=len(badI), impl_vs_spec_mismatches=len(badS),
+                   extra=dict(input_distribution=hist, model_switch_fixed_D3=fixed_D3(), impl_vs_model_mismatches=len(badI), impl_vs_spec_mismatches=len(badS),
                               raised=len(crashed), outside_guards={g: len(cmp_[k]) for k, g in GUARDS.items()},
                               attributed_to_proposed_findings={g: len(v) for g, v in pending.items()},
                               code_better_than_model_outside_guards=len(drift_out),
